@@ -152,6 +152,10 @@ func checkC14(c *Ctx) {
 	tree := &SketchGen{Init: plainExact(2, "plain"), Tokens: []int{10, -11, 0}, Weights: []int{132}, Factors: [][2]int{{1, 2}},
 		Ops: []string{"Add", "AddW", "Merge", "Copy", "Clear", "Reweight", "EncDec", "Proto", "Read"}, Q: 4, QDen: 8, Depth: c.pick(3, 4)}
 	c.runSketchGen(tree, mx, c.pick(6, 12), "exhaustive tree with reads and copies")
+	// deep narrow tree: clear / copy / re-fill sequences on both sides of a copy (memory reuse across Clear and Copy)
+	mxn := &SketchMatrix{Mappings: [][]MappingSpec{{{"log", 0.01}}, {{"cubic", 0.05}}}, Reals: exactRealKinds, Modes: []string{"every"}, Aspects: map[string]bool{"pure": true}}
+	deep := &SketchGen{Init: plainExact(2, "plain"), Tokens: []int{10, 13}, Weights: []int{132}, Ops: []string{"AddW", "Clear", "Copy", "Read"}, Q: 4, QDen: 8, Depth: c.pick(5, 6)}
+	c.runSketchGen(deep, mxn, c.pick(3, 6), "deep narrow tree: add/clear/copy/read")
 	for _, variant := range []string{"plain", "exact"} {
 		for _, init := range mixedInits(variant) {
 			ops := allSketchOps
